@@ -61,3 +61,18 @@ Definition subset_reviewed (sites allow known : list string) : bool :=
 
 Definition unreviewed (sites allow known : list string) : list string :=
   filter (fun s => negb (mem s allow || mem s known)) sites.
+
+(* ---- clone functions of the operations that take pipeline constants (State/CloneFrame.v) ----
+   copied : regions the clone function re-allocates (regenerated from the Go source);
+   writes : (region, finding class) written by the pass that follows (reviewed, state/clone_writes.txt);
+   known  : classes of open findings module-mutated:<operation>:<class>.
+   Every written region is re-allocated by the clone, or its class is a recorded finding. *)
+Definition clone_covers_writes (copied : list string) (writes : list (string * string)) (known : list string) : bool :=
+  forallb (fun w => mem (fst w) copied || mem (snd w) known) writes.
+
+Definition clone_shared_written (copied : list string) (writes : list (string * string)) (known : list string) : list string :=
+  map fst (filter (fun w => negb (mem (fst w) copied || mem (snd w) known)) writes).
+
+(* the written regions no finding excuses: for these the frame theorem applies *)
+Definition clone_sound_writes (writes : list (string * string)) (known : list string) : list string :=
+  map fst (filter (fun w => negb (mem (snd w) known)) writes).
